@@ -51,8 +51,17 @@ def alphabet():
     return out
 
 
-def template(role, ident):
+def template(role, ident, variant="plain"):
     n, v = L.num, L.var
+    if variant == "cond":
+        # every assignment is a top-level Conditional (the printers have a dedicated path for `name = Piecewise(...)`)
+        names = {"state": "x", "parameter": "p", "intermediate": "i"}
+        names[role] = ident
+        x, p, i = names["state"], names["parameter"], names["intermediate"]
+        assigns = [(i, L.cond(L.rel("Gt", v(x), n("0")), v(p), L.neg(v(p)))),
+                   (f"d{x}_dt", L.cond(L.rel("Lt", v(i), n("1")), L.bin_("*", v(i), v("q")), L.neg(v(x)))),
+                   ("dy_dt", L.cond(L.rel("Ge", v("y"), v(x)), L.bin_("-", v(p), v("y")), v(i)))]
+        return models.spec([(x, n("1.0")), ("y", n("2.0"))], [(p, n("0.5")), ("q", n("1.5"))], assigns)
     names = {"state": "x", "parameter": "p", "intermediate": "i"}
     names[role] = ident
     x, p, i = names["state"], names["parameter"], names["intermediate"]
@@ -70,8 +79,11 @@ def items(tier):
     its = []
     for grp, ident in alphabet():
         for role in ("state", "parameter", "intermediate"):
-            its.append({"key": f"{grp}|{ident}|{role}", "kind": "ident", "ident": ident, "role": role, "group": grp,
+            its.append({"key": f"{grp}|{ident}|{role}", "kind": "ident", "ident": ident, "role": role, "group": grp, "variant": "plain",
                         "sample": {"identifier": ident, "role": role, "text": models.spec_text(template(role, ident))}})
+            if grp in ("py", "c", "cmath", "truefalse", "sympy", "grammar", "gen"):
+                its.append({"key": f"{grp}|{ident}|{role}|cond", "kind": "ident", "ident": ident, "role": role, "group": grp, "variant": "cond",
+                            "sample": {"identifier": ident, "role": role, "variant": "cond", "text": models.spec_text(template(role, ident, "cond"))}})
     return its
 
 
@@ -103,10 +115,10 @@ GRID = [dict(zip(("t", "S", "y", "P", "q"), tup)) for tup in __import__("itertoo
 _fresh = {}
 
 
-def fresh_values(role, backend):
-    k = (role, backend)
+def fresh_values(role, backend, variant="plain"):
+    k = (role, backend, variant)
     if k not in _fresh:
-        sp = template(role, FRESH[role])
+        sp = template(role, FRESH[role], variant)
         ref = models.Ref(sp)
         mod = models.build(models.spec_text(sp), backend, scheme=list(models.SCHEMES), stiff_states=[ref.states[0]])
         _fresh[k] = evaluate(mod, ref, canon_map(role, FRESH[role]))
@@ -127,14 +139,15 @@ def run_item(item):
     res = c01.new_res()
     res["states"] = 1
     ident, role = item["ident"], item["role"]
-    sp = template(role, ident)
+    variant = item.get("variant", "plain")
+    sp = template(role, ident, variant)
     text = models.spec_text(sp)
     ref = models.Ref(sp)
     cm = canon_map(role, ident)
     accepted = False
     for backend in ("numpy", "c", "jax"):
         def fail(cls, what):
-            res["failures"].append({"finding": f"{ID}|{ident}|{role}|{backend}|{cls}", "what": f"identifier `{ident}` as {role} ({backend}): {what}", "size": len(ident),
+            res["failures"].append({"finding": f"{ID}|{ident}|{role}|{backend}|{cls}" + ("|cond" if variant == "cond" else ""), "what": f"identifier `{ident}` as {role} ({backend}): {what}", "size": len(ident),
                                     "detail": {"text": text, "backend": backend}})
         try:
             mod = models.build(text, backend, scheme=list(models.SCHEMES), stiff_states=[ref.states[0]])
@@ -153,7 +166,7 @@ def run_item(item):
         except Exception as ex:
             fail("run-time-exception", f"generated code raises {type(ex).__name__}: {' '.join(str(ex).split())[:160]}")
             continue
-        want = fresh_values(role, backend)
+        want = fresh_values(role, backend, variant)
         res["traces"] += len(GRID)
         diff = None
         for k, vals in want.items():
